@@ -98,20 +98,30 @@ def generate_import_sweep(idx):
     return {'world': 'threads', 'seed': block, 'cfg': cfg, 'actors': actors}
 
 
-def generate_frac_sweep(idx):
+def generate_frac_sweep(idx, tier='quick'):
     """Enumerated switch positions over the *whole* first call, not only the state-owning modules: the
     block's program is run once per j with actor 0 pre-empted (and held) after j/G of the line events its
     own calls took in the sequential reference pass.  Programs are Message builds with Z segments,
     component writes and group text, i.e. calls whose shared state, if any, would live in core.py."""
-    block = idx // SWEEP_G
+    # quick: one block (64 + 64 positions) per program; thorough: six consecutive fractional blocks share
+    # one program, i.e. 384 + 384 positions -- enough to visit every line of the lookup layer of a small call
+    R = 6 if tier == 'thorough' else 1
+    fb = idx // (SWEEP_G * 6)
+    block = fb // R
+    npass = fb % R
     rng = K.derive_rng('%s:C19-frac:%d' % (BASE_SEED, block), 'program')
     shared = rng.choice(corpus.T.VERSIONS)
     actors = []
     for a in range(rng.choice([2, 2, 3])):
         tok = gen.Tokens(start=a * 100000 + block * 100, prefix='abcd'[a])
-        actors.append([corpus.gen_call(rng, tok, cid='abcd'[a], kinds=['build', 'build', 'segment_build', 'parse_segment', 'field_override'],
+        actors.append([corpus.gen_call(rng, tok, cid='abcd'[a], kinds=['segment_build', 'parse_segment', 'field_override', 'group_build', 'group_build', 'group_build', 'group_build'],
                                        invalid_p=0.0, version=shared if rng.random() < 0.7 else None)])
-    cfg = {'mean_budget': None, 'touch_p': 0, 'order': 'ref_first', 'sweep_frac': (idx % SWEEP_G + 0.5) / SWEEP_G}
+    j = idx % SWEEP_G
+    # even j: a fraction of all line events of actor 0; odd j: a fraction of its line events inside the
+    # structure-lookup layer (find_child_reference, create_element, set, ... and the state-owning modules)
+    half = SWEEP_G // 2
+    cfg = {'mean_budget': None, 'touch_p': 0, 'order': 'ref_first', 'sweep_frac': (npass * half + j // 2 + 0.5) / (half * R),
+           'sweep_kind': 'lookup' if j % 2 else 'lines'}
     return {'world': 'threads', 'seed': block, 'cfg': cfg, 'actors': actors}
 
 
@@ -120,7 +130,7 @@ def generate(seed, idx, tier):
     if b == 4:
         return generate_import_sweep(idx)
     if b == 1:
-        return generate_frac_sweep(idx)
+        return generate_frac_sweep(idx, tier)
     if b % 3 != 2:
         return generate_sweep(idx)
     rng = K.derive_rng(seed, 'program')
